@@ -5,6 +5,8 @@ import Pun.Model.Hier
 * `expr <steps> <dep> <op> <l> <r>`   — Python expression `l op r` under the ambient dependency
 * `meth <steps> <dep> <op> <l> <r>`   — `l.<op>(r, dependency=dep)`, `l` a p-box (or DS structure, delegated)
 * `spec <steps> <dep> <op> <l> <r>`   — convert both operands first, then the p-box operation
+* `chain <steps> <dep> <L|R|S> <op1> <op2> <a> <b> <c>` — `(a op1 b) op2 c`, `a op1 (b op2 c)`, `(a op1 b) op2 a`
+* `schain …` — the same history with every operand converted first (`specChain`)
 * `conv <steps> <which> <x>`          — `pbox_abc.convert_pbox` (`which = p`) / `operation.convert` (`which = o`)
 anything else falls through to the shared p-box handler. -/
 namespace Pun.Drv.C07
@@ -41,6 +43,24 @@ def handle : List String → String
     match parseNat steps, parseDep dep, parseOp op, parseOpd l, parseOpd r with
     | some n, some d, some o, some x, some y => showP (spec n d o x y)
     | _, _, _, _, _ => "bad-op"
+  | ["chain", steps, dep, shape, op1, op2, a, b, c] =>
+    match parseNat steps, parseDep dep, parseOp op1, parseOp op2, parseOpd a, parseOpd b, parseOpd c with
+    | some n, some d, some o1, some o2, some x, some y, some z =>
+      match shape with
+      | "L" => showRes (evalChain n d .left o1 o2 x y z)
+      | "R" => showRes (evalChain n d .right o1 o2 x y z)
+      | "S" => showRes (evalChain n d .reuse o1 o2 x y z)
+      | _ => "bad-op"
+    | _, _, _, _, _, _, _ => "bad-op"
+  | ["schain", steps, dep, shape, op1, op2, a, b, c] =>
+    match parseNat steps, parseDep dep, parseOp op1, parseOp op2, parseOpd a, parseOpd b, parseOpd c with
+    | some n, some d, some o1, some o2, some x, some y, some z =>
+      match shape with
+      | "L" => showP (specChain n d .left o1 o2 x y z)
+      | "R" => showP (specChain n d .right o1 o2 x y z)
+      | "S" => showP (specChain n d .reuse o1 o2 x y z)
+      | _ => "bad-op"
+    | _, _, _, _, _, _, _ => "bad-op"
   | ["conv", steps, which, x] =>
     match parseNat steps, parseOpd x with
     | some n, some x =>
